@@ -82,7 +82,7 @@ def work(job):
     return part
 
 
-def run_exact(ctx, prop, codecs, spec_codec_name, option_devs=(), opts=None, nmods=(300, 6000)):
+def run_exact(ctx, prop, codecs, spec_codec_name, option_devs=(), opts=None, nmods=(300, 6000), con_kinds=('octs',)):
     """spec_codec_name: codec -> name understood by the driver's `spec` op"""
     rng = ctx.rng
     opts = opts or Opts(big_lengths=0.02 if ctx.quick() else 0.06, max_depth=3 if ctx.quick() else 4)
@@ -95,10 +95,10 @@ def run_exact(ctx, prop, codecs, spec_codec_name, option_devs=(), opts=None, nmo
         sib = variant(g, t)
         plain = module_text([('A', t), ('B', sib)])
         texts = [('plain', plain, False)]
-        rc = RefCtx(rng, p_type=0.4, p_value=0.3, p_con_on_ref=0.3, con_kinds=('octs',))
+        rc = RefCtx(rng, p_type=0.4, p_value=0.3, p_con_on_ref=0.3, con_kinds=con_kinds)
         texts.append(('reorganised', module_text([('A', t), ('B', sib)], ctx=rc), False))
         if not any(k in plain for k in ('CHOICE', 'SET')):
-            rc2 = RefCtx(rng, p_type=0.5, p_value=0.2, p_con_on_ref=0.4, con_kinds=('octs',))
+            rc2 = RefCtx(rng, p_type=0.5, p_value=0.2, p_con_on_ref=0.4, con_kinds=con_kinds)
             # sibling first: a leaked constraint of B would then show up in A
             texts.append(('reorganised-untagged', module_text([('B', sib), ('A', t)], ctx=rc2, tags=''), True))
         vals = [g.value(t) for _ in range(4)]
